@@ -24,6 +24,6 @@ TRUSTED = ["fprintf/fputs/putc replaced by contracts that accept exactly the wri
            "Memory::read8/read_debug replaced by the witness contract (one arbitrary witness address with ghost contents, every other address arbitrary)"]
 MANIFEST = {
     "text": "Unbounded proof (nested DFCC loop contracts, witness projection, ghost decoder written from the format specification) that the hex / srec / bin / wdc / uf2 writers emit each written byte of an arbitrary image exactly once with its value and nothing else, with valid lengths and checksums.",
-    "note": "ELF, Mach-O and Amiga writers are not covered; the readers are under the C17 safety/termination contracts only (no functional read-back contract); images whose highest address is 0xffffffff are excluded by precondition (listed finding).",
+    "note": "ELF, Mach-O and Amiga writers are not covered; the readers are under the C17 safety/termination contracts only (no functional read-back contract); any address range is covered, including images that end at 0xffffffff (uf2: below 0xfffffe00, wdc: 24-bit addresses, bin: not the whole 4 GiB).",
     "technique": "CBMC DFCC loop contracts + ghost format decoder on fileio/write_hex.cpp, write_srec.cpp, write_bin.cpp, write_wdc.cpp, write_uf2.cpp (+ the real fileio/FileIo.cpp byte writers)",
 }
